@@ -25,6 +25,9 @@ EvVerdict(cfg, s, e, k) ==
   ELSE IF e.op = "get" THEN
      LET r == Get(cfg, s, e.t) IN
      IF r.err # "" THEN (IF e.res = "err:" \o r.err THEN "ok" ELSE Fail("range", k))
+     ELSE IF cfg.kind = "stack" THEN
+          (IF e.res # "ok" THEN Fail("pull-raised", k)
+           ELSE IF e.stack # StackVals(s, e.t) THEN Fail("stack", k) ELSE SnapVerdict(r.st, e, k))
      ELSE IF r.free THEN (IF e.res = "ok" THEN SnapVerdict(r.st, e, k) ELSE "ok")
      ELSE IF e.res # "ok" THEN Fail("pull-raised", k)
      ELSE IF <<e.num, e.den>> # Def(cfg, s.full, s.prev, e.t) THEN Fail("value", k)
